@@ -15,7 +15,7 @@ CHECKS = {'C16': {'level': 'exploration',
          'level_text': 'all 1804 shapes of rank 1..4 with dimensions 0..4 and rank 5 with dimensions 0..3 (thorough: '
                        'rank 5 up to 4, 3905 shapes) x 10 scalar types x 4 storages are enumerated completely together '
                        'with every valid argument of offset/offset0/dims0/operator()/vector/array/matrix/tensor/'
-                       'slice/reshape/indexed, 19 storage conversions, integral, remove_if (all 2^n masks, n<=4) and '
+                       'slice/reshape/indexed, 18 storage conversions, integral, remove_if (all 2^n masks, n<=4) and '
                        'stack (all 2-block and 2x2 splits up to 4x4); this is a complete small-scope enumeration, not '
                        'a proof for larger dimensions or ranks above 5 (40 larger shapes up to 1e5 elements are a '
                        'finite list with sampled views)',
